@@ -65,6 +65,12 @@ Proof.
   rewrite matches_in_range. destruct (in_range p (Some from) to s); cbn [negb]; [apply IH|]. f_equal. apply IH.
 Qed.
 
+Lemma cache_pop_idem : forall c p, cache_pop (cache_pop c p) p = cache_pop c p.
+Proof.
+  intros. unfold cache_pop. induction c as [|e r IH]; [reflexivity|]. cbn [filter].
+  destruct (negb (fst (fst e) =? p)) eqn:E; cbn [filter]; [rewrite E, IH; reflexivity|exact IH].
+Qed.
+
 (* what every request does, in terms of the effective request [abstract] computes from the raw arguments *)
 Definition step_matches (cfg : config) (st : state) (r : request) : Prop :=
   match abstract cfg (st_now st) r with
@@ -145,7 +151,7 @@ Proof.
     destruct (0 <=? zf); [|reflexivity].
     destruct qt as [| | |zt]; cbn [nonneg_int is_absent]; try reflexivity.
     destruct (0 <=? zt); [|reflexivity].
-    unfold hist_remove_samples, base_remove_samples. rewrite drv_remove_is_spec. reflexivity.
+    unfold hist_remove_samples, base_remove_samples. rewrite drv_remove_is_spec, cache_pop_idem. reflexivity.
   - (* value change *)
     cbn [abstract step step_gen]. unfold hist_value_change. destruct v as [v|].
     + destruct (port_on_change cfg p); destruct (cfg_real_ms cfg <? st_now st); cbn [andb negb]; reflexivity.
